@@ -24,7 +24,7 @@ type xrunner struct {
 	// extra, when set, is an additional oracle evaluated on the
 	// implementation's outcome after it agreed with the reference as a value;
 	// it returns "" or a description of the violated requirement.
-	extra func(d *adoc.Doc, ctx *adoc.Node, e refExpr, got, want Outcome) string
+	extra func(d *adoc.Doc, ctx *adoc.Node, e refExpr, got, want Outcome, env EnvSpec) string
 }
 
 func newXRunner(c *run.Check, kind string, env EnvSpec) *xrunner {
@@ -108,6 +108,9 @@ func (r *xrunner) runDoc(w int, cache *exprCache, d *adoc.Doc, exprs []refExpr, 
 		cur := b.ToCur[ctx]
 		for _, e := range exprs {
 			loc.evals++
+			if env.rec != nil {
+				env.rec.reset()
+			}
 			var want Outcome
 			if e.Err != nil {
 				want = Outcome{Err: true, ErrText: "syntax: " + e.Err.Error()}
@@ -124,7 +127,7 @@ func (r *xrunner) runDoc(w int, cache *exprCache, d *adoc.Doc, exprs []refExpr, 
 			extraMsg := ""
 			if SameValue(got, want, r.signZero) && !IsPanicErr(got) {
 				if r.extra != nil {
-					extraMsg = r.extra(rd, ctx, e, got, want)
+					extraMsg = r.extra(rd, ctx, e, got, want, env)
 				}
 				if extraMsg == "" {
 					if !want.Err && !(want.Type == "node-set" && len(want.Nodes) == 0) {
